@@ -93,8 +93,8 @@ func init() {
 	th = append(th, H{Pkg: "scipipe", Fn: "VxH15missing", MustReach: []string{"tried"}, MustAssert: []string{"C15.missing-value-stops", "C15.missing-value-no-task"}})
 	th = append(th, H{Pkg: "scipipe", Fn: "VxH15out", Params: p("L", 4, "V", 3), MustReach: []string{"outpath", "default"}, MustAssert: []string{"C15.outpath-expansion", "C15.default-name"}})
 	// modifier chains on a joined (sub-stream) placeholder, before and after the join directive
-	q = append(q, H{Pkg: "scipipe", Fn: "VxH18join", Params: p("L", 3, "n", 1), MustReach: []string{"task-built"}, MustAssert: []string{"C18.joined-in-order"}})
-	th = append(th, H{Pkg: "scipipe", Fn: "VxH18join", Params: p("L", 3, "n", 2), MustReach: []string{"task-built"}, MustAssert: []string{"C18.joined-in-order"}})
+	q = append(q, H{Pkg: "scipipe", Fn: "VxH18join", Params: p("L", 3, "n", 1, "nsep", 5), MustReach: []string{"task-built"}, MustAssert: []string{"C18.joined-in-order"}})
+	th = append(th, H{Pkg: "scipipe", Fn: "VxH18join", Params: p("L", 3, "n", 2, "nsep", 3), MustReach: []string{"task-built"}, MustAssert: []string{"C18.joined-in-order"}})
 	regCheck(&Check{
 		ID: "C15", Quick: q, Thorough: th,
 		Bounds: map[string]string{
@@ -118,8 +118,10 @@ func init() {
 		if n == 3 {
 			L = 2
 		}
-		q = append(q, H{Pkg: "scipipe", Fn: "VxH18join", Params: p("L", L, "n", n), MustReach: []string{"task-built"}, MustAssert: []string{"C18.joined-in-order", "C18.all-members-collected", "C18.substream-drained"}})
-		th = append(th, H{Pkg: "scipipe", Fn: "VxH18join", Params: p("L", L+1, "n", n), MustReach: []string{"task-built"}, MustAssert: []string{"C18.joined-in-order", "C18.all-members-collected", "C18.substream-drained"}})
+		j5 := H{Pkg: "scipipe", Fn: "VxH18join", Params: p("L", L, "n", n, "nsep", 5), MustReach: []string{"task-built"}, MustAssert: []string{"C18.joined-in-order", "C18.all-members-collected", "C18.substream-drained"}}
+		q = append(q, j5)
+		th = append(th, j5) // the multi-character separators at the quick bound; the deeper bound below uses the one-character ones
+		th = append(th, H{Pkg: "scipipe", Fn: "VxH18join", Params: p("L", L+1, "n", n, "nsep", 3), MustReach: []string{"task-built"}, MustAssert: []string{"C18.joined-in-order", "C18.all-members-collected", "C18.substream-drained"}})
 		q = append(q, H{Pkg: "components", Fn: "VxH18sts", Params: p("n", n, "preempt", 3), MustReach: []string{"ran"}, MustAssert: []string{"C18.sts-one-carrier", "C18.sts-all-members"}})
 		th = append(th, H{Pkg: "components", Fn: "VxH18sts", Params: p("n", n, "preempt", 6), MustReach: []string{"ran"}, MustAssert: []string{"C18.sts-one-carrier", "C18.sts-all-members"}})
 	}
@@ -133,7 +135,7 @@ func init() {
 		Bounds: map[string]string{
 			"sub-stream length": "0..3 members, channel buffer 1 (so the stream is longer than the buffer)",
 			"member paths":      "every valid path of <= 3 bytes (<= 2 for 3 members) quick / one byte more thorough, relative and absolute",
-			"separator":         "space, comma, colon; with and without a %suffix modifier",
+			"separator":         "one-character: space, comma, colon (both tiers, all path bounds); multi-character: \", \" and \" -I \" at the quick path bound (both tiers); with and without a %suffix modifier and with s/a/bb/ after join",
 			"two joined ports":  "sub-streams of (1,1), (2,1), (0,2) members, symbolic map iteration order in NewTask",
 			"StreamToSubStream": "FileSource -> StreamToSubStream -> consumer with 0..3 files, up to 3 (quick) / 6 (thorough) pre-emptions chosen by the solver among the runnable goroutines",
 		},
